@@ -15,7 +15,7 @@ RULE = (
     "sequence is a duplicate-free prefix of the arrived sequence; after the final drain every item of a peer that was "
     "inserted and never removed has been delivered. Socket level: 400 (quick) / 6000 (thorough) seeded random schedules of "
     "real PULL/SUB/DEALER/ROUTER/REP/XPUB sockets over scripted pipes, every recv result predicted by the World model; and "
-    "300 / 5000 `streams` cases judged by the Spec itself: PULL/DEALER/ROUTER fed by 1..3 peers in random chunks "
+    "300 / 5000 `streams` cases judged by the Spec itself: PULL/DEALER/ROUTER/REP fed by 1..3 peers in random chunks "
     "(messages numbered per peer, empty frames anywhere incl. last, 70 000-byte frames, clean EOF and EOF inside a "
     "message): per peer, the delivered sequence must equal the complete messages put on the wire; a message cut short "
     "is never surfaced; at most one error per connection that ended inside a message."
@@ -50,7 +50,7 @@ def cases(tier, rng):
     return out
 
 
-STREAM_PEER = {"PULL": "PUSH", "DEALER": "ROUTER", "ROUTER": "DEALER"}
+STREAM_PEER = {"PULL": "PUSH", "DEALER": "ROUTER", "ROUTER": "DEALER", "REP": "REQ"}
 TAILS = [[], [b""], [b"x"], [b"", b""], [b"a", b""], [b"", b"b"], [b"y" * 300], [b"y" * 300, b""], [b"", b"z" * 70000]]
 
 
@@ -64,12 +64,14 @@ def stream_case(rng, name):
     for p in range(1, np_ + 1):
         sc.attach(1, p, STREAM_PEER[t], b"p%d" % p)
         msgs = [[b"m%d-%d" % (p, i)] + rng.choice(TAILS if tier_big(rng) else TAILS[:-1]) for i in range(rng.randint(1, 5))]
-        data = b"".join(zmtp.message(m) for m in msgs)
+        # (REP: every request arrives behind its delimiter, which recv strips — the payload keeps its own empty frames)
+        onwire = [([b""] + m if t == "REP" else m) for m in msgs]
+        data = b"".join(zmtp.message(m) for m in onwire)
         want[p] = msgs
         r = rng.random()
         if r < 0.2 and len(msgs) > 0:
             # the connection ends inside the last message: that message must never be surfaced
-            last = zmtp.message(msgs[-1])
+            last = zmtp.message(onwire[-1])
             data = data[: len(data) - rng.randint(1, len(last) - 1)]
             want[p] = msgs[:-1]
             cutshort.add(p)
